@@ -64,14 +64,14 @@ func (c *Check) add(rule, construct, pos, verdict, fact string) {
 	c.Obls = append(c.Obls, Obl{Rule: rule, Construct: construct, Pos: pos, Verdict: verdict, Fact: fact})
 }
 
-func (c *Check) OK(rule, construct, pos, fact string)   { c.add(rule, construct, pos, Discharged, fact) }
-func (c *Check) Bad(rule, construct, pos, fact string)  { c.add(rule, construct, pos, Violated, fact) }
-func (c *Check) Unk(rule, construct, pos, fact string)  { c.add(rule, construct, pos, Undecided, fact) }
-func (c *Check) Rule(desc string)                       { c.Rules = append(c.Rules, desc) }
-func (c *Check) Assume(s ...string)                     { c.Assumptions = append(c.Assumptions, s...) }
-func (c *Check) Trust(s ...string)                      { c.Trusted = append(c.Trusted, s...) }
-func (c *Check) Note(format string, a ...any)           { c.Notes = append(c.Notes, fmt.Sprintf(format, a...)) }
-func (c *Check) Fn(name string)                         { c.Analysed[name] = true }
+func (c *Check) OK(rule, construct, pos, fact string)  { c.add(rule, construct, pos, Discharged, fact) }
+func (c *Check) Bad(rule, construct, pos, fact string) { c.add(rule, construct, pos, Violated, fact) }
+func (c *Check) Unk(rule, construct, pos, fact string) { c.add(rule, construct, pos, Undecided, fact) }
+func (c *Check) Rule(desc string)                      { c.Rules = append(c.Rules, desc) }
+func (c *Check) Assume(s ...string)                    { c.Assumptions = append(c.Assumptions, s...) }
+func (c *Check) Trust(s ...string)                     { c.Trusted = append(c.Trusted, s...) }
+func (c *Check) Note(format string, a ...any)          { c.Notes = append(c.Notes, fmt.Sprintf(format, a...)) }
+func (c *Check) Fn(name string)                        { c.Analysed[name] = true }
 
 // Cond records an obligation whose verdict is decided by ok.
 func (c *Check) Cond(ok bool, rule, construct, pos, okFact, badFact string) bool {
